@@ -1910,6 +1910,9 @@ def remove_dead_ifs(source: str) -> str:
             end = max((e for (_, e) in ranges))
             indent = node.col_offset
             node_start, node_end = core.get_charnos(node, source)
+            if source[node_start:node_end].startswith("elif"):
+                # The live branch of an elif cannot be moved out of the enclosing if statement
+                continue
             modified_body = " " * indent + re.sub("(?<![^\\n])    ", "", source[start:end]).lstrip()
 
             pre_else = source[:node_start]
